@@ -16,11 +16,15 @@ pub struct DiffRef {
     pub omit_empty_no: bool,
     /// search only from offset 0 (used for the long-text stage)
     pub only_pos0: bool,
+    /// F1-class stage: only patterns with a nullable unbounded loop, all of them interpreted by the VM;
+    /// compared with the reference only where the Perl rule and the VM's empty-iteration rule agree
+    pub f1_undisputed: bool,
 }
 
 pub struct DP {
     pub re: Regex,
     pub prog: refm::Prog,
+    pub prog_vm: Option<refm::Prog>,
     pub vm: bool,
     pub interesting_groups: bool,
     pub has_cond: bool,
@@ -70,7 +74,26 @@ impl PatProp for DiffRef {
         if !self.allow_cond && n.has_cond() {
             return Prep::Skip("domain:conditional");
         }
-        if let Some(k) = known_class(ctx, n) {
+        if self.f1_undisputed {
+            if !n.has_f1() {
+                return Prep::Skip("domain:no-nullable-unbounded-loop");
+            }
+            if (n.has_cond_leak() && ctx.active("cond_inside_atomic_context")) || (n.has_bare_backref_cond() && ctx.active("cond_is_bare_backref")) {
+                return Prep::Excluded("F4/F14");
+            }
+            // every nullable unbounded loop must be interpreted by the VM: no delegated piece may contain one
+            match engine::program_shape(pat) {
+                Some((dels, _)) => {
+                    for d in dels {
+                        match crate::conv::parse(&d) {
+                            Ok(t) if !t.has_f1() => {}
+                            _ => return Prep::Skip("domain:nullable-loop-delegated"),
+                        }
+                    }
+                }
+                None => return Prep::Skip("compile:error"),
+            }
+        } else if let Some(k) = known_class(ctx, n) {
             return Prep::Excluded(k);
         }
         if !n.refs_valid(false) {
@@ -92,7 +115,17 @@ impl PatProp for DiffRef {
         for f in n.features() {
             st.class(&format!("feature:{}", f));
         }
-        Prep::Ready(DP { re, prog: refm::compile(n), vm, interesting_groups: groups_in_context(n, false), has_cond: n.has_cond() })
+        let prog_vm = if self.f1_undisputed {
+            if !vm {
+                return Prep::Skip("domain:nullable-loop-delegated");
+            }
+            let mut p = refm::compile(n);
+            p.vm_loops = true;
+            Some(p)
+        } else {
+            None
+        };
+        Prep::Ready(DP { re, prog: refm::compile(n), prog_vm, vm, interesting_groups: groups_in_context(n, false), has_cond: n.has_cond() })
     }
 
     fn all_offsets(&self) -> bool {
@@ -111,6 +144,12 @@ impl PatProp for DiffRef {
         let (r, rs) = refm::search(&p.prog, t, pos, false);
         if r == RefResult::Budget {
             return Verdict::Skip("reference-budget");
+        }
+        if let Some(pv) = &p.prog_vm {
+            let (r2, _) = refm::search(pv, t, pos, false);
+            if r2 != r {
+                return Verdict::Skip("disputed:perl-rule != vm-rule for the empty iteration");
+            }
         }
         let matched = matches!(r, RefResult::Match(_));
         if self.caps {
